@@ -196,8 +196,10 @@ impl Mac {
         }?;
         let (mut tx_config, tx_channel) =
             self.region.create_tx_config(rng, self.configuration.data_rate, &Frame::Data);
+        // The level commanded by the network lowers, never raises, the radio's own limit.
+        let max_power = self.board_eirp.max_power;
         tx_config.adjust_power(
-            self.configuration.tx_power.unwrap_or(self.board_eirp.max_power),
+            self.configuration.tx_power.map_or(max_power, |pw| pw.min(max_power)),
             self.board_eirp.antenna_gain,
         );
         Ok((tx_config, self.rx_windows(&tx_channel), fcnt))
